@@ -26,3 +26,15 @@ claim("C06", "As C01 for $deref over the 8 field combinations and near-miss oper
 claim("C07", "Alignment of every reported match and address checked on the implementation's outputs and against the specification's scan.", "DESIGN.md 7 C07")
 claim("C11", "All-matches / first-match texts vs the specification's leftmost non-overlapping scan.", "DESIGN.md 7 C11")
 claim("C12", "The property's equations checked on the implementation's outputs in all 8 mode combinations, and each output against the model.", "DESIGN.md 7 C12")
+
+claim("C08", "Stream of the real pipeline vs expected (address, mnemonic) per instruction line over the validated objdump grammar, vs the model stream on grammar / mutated / real objdump / test listings.", "DESIGN.md 7 C08")
+claim("C09", "Operand normal forms of the Lean specification (cross-checked by an independent Python table) vs the decoded real stream for every AT&T operand form.", "DESIGN.md 7 C09")
+claim("C10", "The real stream must decode to exactly the instruction list the real parser hands over; streams compared with the model's encoding; injectivity watched over all streams of the run.", "DESIGN.md 7 C10")
+claim("C13", "Regex of the macro rule = regex of the inlined rule on the real code for random factorings in all supported use forms; definitions deep-compared before/after; expanded tree vs the model.", "DESIGN.md 7 C13")
+claim("C14", "Random operation sequences in one interpreter vs each operation alone in a fresh interpreter and vs the model's state machine.", "DESIGN.md 7 C14")
+claim("C15", "Binary route vs text route on objdump's own output for random multi-section objects; objdump argv logged through a PATH shim vs the model's objdumpArgs.", "DESIGN.md 7 C15")
+claim("C16", "Pairs of listings with equal instruction sequences and random presentation edits: equal real streams and results; model stream compared.", "DESIGN.md 7 C16")
+claim("C17", "Each listed fault injected alone into a found baseline, assembly and binary, bool and list modes: must raise; outcome class vs the model.", "DESIGN.md 7 C17")
+claim("C18", "Per-instruction tagging oracle at the range boundaries, untouched instructions unchanged, `call: [valid_addr]` reports exactly the tagged calls; stream vs the model.", "DESIGN.md 7 C18")
+claim("C19", "Every reference position x defined-before/after/undefined: compile fails naming the macro or the regex contains no @; outcome and regex vs the model.", "DESIGN.md 7 C19")
+claim("C20", "python -m jasm.main in a scratch directory vs the API for every option combination; argument rules and non-zero exit on failure.", "DESIGN.md 7 C20")
